@@ -88,6 +88,9 @@ pub mod query;
 #[allow(clippy::module_inception)]
 pub mod parser;
 
+#[cfg(jsonpath_rust_verif)]
+pub mod verif;
+
 #[macro_use]
 extern crate pest_derive;
 extern crate core;
